@@ -74,6 +74,7 @@ type world struct {
 	signers map[string]neotest.Signer // hex(script hash BE) -> signer
 	users   []neotest.SingleSigner
 	alphaAc []string // hex of the Alphabet nodes' standard accounts, committee order
+	v       int      // number of consensus nodes (validators); the Alphabet is the whole committee of n >= v members
 	mon     bool
 	prev    *view
 	// monitor state (independent reading of the property)
@@ -327,8 +328,12 @@ func ownerID(h util.Uint160) []byte {
 	return b
 }
 
-func newWorld(t testing.TB, run *hx.Run, n int) (*world, string) {
-	c := chainx.New(t, n)
+// newWorld: chain with an n-member committee (= Alphabet) of which v <= n members are validators.
+func newWorld(t testing.TB, run *hx.Run, n, v int) (*world, string) {
+	if v <= 0 || v > n {
+		v = n
+	}
+	c := chainx.NewCV(t, n, v)
 	c.DeployNNS()
 	var pubs []any
 	for _, m := range c.Members {
@@ -350,7 +355,7 @@ func newWorld(t testing.TB, run *hx.Run, n int) (*world, string) {
 	if !r.Halt {
 		t.Fatalf("registerTLD: %s", r.Fault)
 	}
-	w := &world{c: c, run: run, n: n, cnt: ct.Hash, bal: b.Hash, nm: nm.Hash, nns: c.NNSHash(), id: id.Hash,
+	w := &world{c: c, run: run, n: n, v: v, cnt: ct.Hash, bal: b.Hash, nm: nm.Hash, nns: c.NNSHash(), id: id.Hash,
 		signers: map[string]neotest.Signer{}, mon: true,
 		live: map[string]*liveInfo{}, tomb: map[string]bool{}, fees: map[string]*big.Int{}, reported: map[string]bool{}}
 	w.signers[hx.Hex(c.Alpha.ScriptHash().BytesBE())] = c.Alpha
@@ -363,10 +368,18 @@ func newWorld(t testing.TB, run *hx.Run, n int) (*world, string) {
 	for _, m := range c.Members {
 		w.alphaAc = append(w.alphaAc, hx.Hex(m.ScriptHash().BytesBE()))
 	}
+	// the consensus nodes' own multisignature account: on a chain with fewer validators than Alphabet nodes it is
+	// one more account that is not the Alphabet
+	w.signers[hx.Hex(c.ValidatorsSigner().ScriptHash().BytesBE())] = c.ValidatorsSigner()
 	w.prev = w.scan()
 	init := fmt.Sprintf("op init %s %s %s %s %s %s", hx.Hex(ct.Hash.BytesBE()), hx.Hex(c.Alpha.ScriptHash().BytesBE()),
 		hx.Hex(c.Cmt.ScriptHash().BytesBE()), strings.Join(w.alphaAc, ","), hx.Hex([]byte("container")),
 		hx.Hex([]byte("container"))+","+hx.Hex([]byte("cdn")))
+	if v < n {
+		// the model charges the Alphabet = the whole committee (the accounts listed above); the validator count is
+		// carried for the replay only (chain shape)
+		init += fmt.Sprintf(" vals=%d", v)
+	}
 	return w, init
 }
 
@@ -776,7 +789,13 @@ func (w *world) checkFee(v5 func(string, string), method string, owner []byte, c
 			exp = z
 		}
 		if balOf(cur.bal, k).Cmp(exp) != 0 {
-			v5("wrong-fee", fmt.Sprintf("account %s: %s -> %s, expected %s (fee %s, %d Alphabet nodes, owner account %s)", k, balOf(w.prev.bal, k), balOf(cur.bal, k), exp, f, w.n, from))
+			who := "account"
+			for i, ac := range w.alphaAc {
+				if ac == k {
+					who = fmt.Sprintf("Alphabet node %d of %d (validators: the first %d), account", i+1, w.n, w.v)
+				}
+			}
+			v5("wrong-fee", fmt.Sprintf("%s %s: %s -> %s, expected %s (fee %s, %d Alphabet nodes, owner account %s)", who, k, balOf(w.prev.bal, k), balOf(cur.bal, k), exp, f, w.n, from))
 		}
 	}
 	if cur.sup.Cmp(w.prev.sup) != 0 {
@@ -1038,6 +1057,9 @@ func (g *gen) cmt() string   { return hx.Hex(g.w.c.Cmt.ScriptHash().BytesBE()) }
 
 // wit: the witnesses of a mutating call: mostly the Alphabet, sometimes Alphabet+committee, rarely others.
 func (g *gen) wit() string {
+	if g.w.v < g.w.n && g.rng.IntN(25) == 0 {
+		return hx.Hex(g.w.c.ValidatorsSigner().ScriptHash().BytesBE()) // the validators' multisig is not the Alphabet
+	}
 	r := g.rng.IntN(40)
 	if g.chaos && g.rng.IntN(2) == 0 {
 		r = 28 + g.rng.IntN(12)
@@ -1185,7 +1207,17 @@ func (g *gen) fund(owner []byte, named bool) (string, bool) {
 	}
 	acct := hx.Hex(owner[1:21])
 	target := new(big.Int).Mul(f, big.NewInt(int64(g.w.n)))
-	switch g.rng.IntN(8) {
+	k := g.rng.IntN(8)
+	if g.w.v < g.w.n && g.rng.IntN(3) == 0 {
+		// fewer validators than Alphabet nodes: the owner holds exactly enough for the validators only (must be
+		// refused: every Alphabet node is paid), or one more
+		target.Mul(f, big.NewInt(int64(g.w.v)))
+		if g.rng.IntN(3) == 0 {
+			target.Add(target, big.NewInt(1))
+		}
+		k = 7
+	}
+	switch k {
 	case 0:
 		target.Sub(target, big.NewInt(1))
 	case 1:
@@ -1399,6 +1431,40 @@ func (g *gen) scenario(k int, emit func(string)) {
 	}
 }
 
+// cvBoundaries: on a chain with fewer validators (v) than Alphabet nodes (n) the fee is owed to all n Alphabet
+// nodes: an owner holding fee*v or fee*n-1 is refused, one holding fee*n pays every node. Unnamed and named.
+func (g *gen) cvBoundaries(emit func(string)) {
+	n, v := int64(g.w.n), int64(g.w.v)
+	fee, afee := int64(100), int64(50)
+	emit(fmt.Sprintf("op setcfg %s %s %s", g.alpha(), hx.Hex([]byte(feeKey)), encInt(fee)))
+	emit(fmt.Sprintf("op setcfg %s %s %s", g.alpha(), hx.Hex([]byte(aliasFeeKey)), encInt(afee)))
+	to := func(owner []byte, target int64) {
+		acct := hx.Hex(owner[1:21])
+		diff := target - balOf(g.w.prev.bal, acct).Int64()
+		if diff > 0 {
+			emit(fmt.Sprintf("op mint %s %s %d -", g.alpha(), acct, diff))
+		} else if diff < 0 {
+			emit(fmt.Sprintf("op burn %s %s %d -", g.alpha(), acct, -diff))
+		}
+	}
+	for _, named := range []bool{false, true} {
+		p, ok := g.fresh()
+		if !ok {
+			return
+		}
+		f := fee
+		kind, name := "put", ""
+		if named {
+			f, kind, name = fee+afee, "putn", hx.Pick(g.rng, names)+"v"
+		}
+		for _, target := range []int64{f * v, f*n - 1, f * n} {
+			to(p.owner, target)
+			emit(g.putLine(kind, g.alpha(), p, name, ""))
+		}
+		emit("op get " + p.cid)
+	}
+}
+
 func (g *gen) eaclTableOK(cid string) string {
 	vl := hx.Pick(g.rng, []int{0, 1, 4, 20})
 	t := []byte{byte(g.rng.IntN(256)), byte(vl)}
@@ -1488,37 +1554,50 @@ func runLines(t *testing.T, run *hx.Run, lines []string) {
 	var w *world
 	var sample []string
 	defer func() { run.Sample(strings.Join(sample, "\n")) }()
-	ensure := func(n int) {
+	ensure := func(n, v int) {
 		if w == nil {
 			var init string
-			w, init = newWorld(t, run, n)
+			w, init = newWorld(t, run, n, v)
 			run.Op(init, "INIT | "+w.prev.String())
 		}
 	}
+	dn, dv := 1, 1 // shape of the case when its init line is missing (e.g. shrunk away): from the case attribute cv=n/v
 	for _, l := range lines {
 		if strings.HasPrefix(l, "case ") {
 			w = nil
 			f := strings.Fields(l)
+			dn, dv = 1, 1
+			for _, a := range f[2:] {
+				if strings.HasPrefix(a, "cv=") {
+					fmt.Sscanf(a, "cv=%d/%d", &dn, &dv)
+				}
+			}
 			run.Case(f[1], f[2:]...)
 			continue
 		}
 		f := strings.Fields(l)
 		if len(f) >= 2 && f[1] == "init" {
-			// "op init <n>" in a corpus file, or the full init line of a recorded case: the committee size is
-			// the number of Alphabet accounts
-			n := 1
-			if len(f) == 3 {
+			// "op init <n> [<v>]" in a corpus file, or the full init line of a recorded case: the committee size is
+			// the number of Alphabet accounts, the validator count the trailing vals=<v> (default: all of them)
+			n, v := 1, 0
+			if len(f) == 3 || len(f) == 4 {
 				fmt.Sscan(f[2], &n)
+				if len(f) == 4 {
+					fmt.Sscan(f[3], &v)
+				}
 			} else if len(f) >= 6 {
 				n = len(strings.Split(f[5], ","))
+				if strings.HasPrefix(f[len(f)-1], "vals=") {
+					fmt.Sscanf(f[len(f)-1], "vals=%d", &v)
+				}
 			}
 			if w != nil {
 				t.Fatal("init in the middle of a case")
 			}
-			ensure(n)
+			ensure(n, v)
 			continue
 		}
-		ensure(1)
+		ensure(dn, dv)
 		l = w.subst(l)
 		obs := w.execOp(l)
 		run.Op(l, obs)
@@ -1543,15 +1622,22 @@ func TestRun(t *testing.T) {
 	if run.Tier == "thorough" {
 		cases, nops = 40, 140
 	}
-	sizes := []int{1, 4, 7}
+	// chain shapes committee/validators: the Alphabet is the committee; 6/4 (neotest's stock multi-node shape), 4/1
+	// and 7/4 have fewer consensus nodes than Alphabet nodes, so the two key lists differ
+	shapes := [][2]int{{1, 1}, {4, 4}, {7, 7}, {6, 4}}
+	if run.Tier == "thorough" {
+		shapes = [][2]int{{1, 1}, {4, 4}, {7, 7}, {6, 4}, {4, 1}, {7, 4}}
+	}
 	for ci := 0; ci < cases; ci++ {
-		n := sizes[(ci+run.Shard)%3]
-		w, init := newWorld(t, run, n)
+		// the extra ci/len rotation keeps the malformed stream (every 4th case) from always meeting the same shape
+		sh := shapes[(ci+ci/len(shapes)+run.Shard)%len(shapes)]
+		n, v := sh[0], sh[1]
+		w, init := newWorld(t, run, n, v)
 		kind := "wf"
 		if ci%4 == 3 {
 			kind = "wf-malformed" // still inside the properties' quantifier (they speak of all inputs): monitors stay on
 		}
-		run.Case(fmt.Sprintf("s%d.%d.%d", run.Seed, run.Shard, ci), kind)
+		run.Case(fmt.Sprintf("s%d.%d.%d", run.Seed, run.Shard, ci), kind, fmt.Sprintf("cv=%d/%d", n, v))
 		run.Op(init, "INIT | "+w.prev.String())
 		g := newGen(w, run.Rand(ci))
 		g.chaos = ci%4 == 3
@@ -1573,6 +1659,9 @@ func TestRun(t *testing.T) {
 		}
 		if g.rng.IntN(5) != 0 {
 			emit(fmt.Sprintf("op setcfg %s %s %s", g.alpha(), hx.Hex([]byte(aliasFeeKey)), encInt(hx.Pick(g.rng, []int64{0, 1, 50, 500}))))
+		}
+		if v < n {
+			g.cvBoundaries(emit)
 		}
 		for i := 0; i < nops; i++ {
 			if i%16 == 5 {
